@@ -257,6 +257,91 @@ pub fn exec_special(ctx: &mut Ctx, ex: &mut Extra, hist: &mut Vec<String>, toks:
             }
             s
         }
+        "searchx" => {
+            // searchx <threads>: alpha_beta_search as in `search`, decided by the harness itself against a
+            // plain (pruning-free, cache-free) minimax over the engine's own legal-move generator and
+            // evaluate::score.  Used where the extracted model is too slow to be the oracle (depth >= 4);
+            // generator and leaf score are tied to the model by the C01 / C06 / C18 correspondences.
+            let threads: usize = toks[1].parse().unwrap();
+            let sc = ex.sctx.as_mut().expect("sctx first");
+            let depth = sc.search_depth();
+            let before = crate::scen::full_snapshot(&ctx.board);
+            let pool = rayon::ThreadPoolBuilder::new().num_threads(threads).build().unwrap();
+            ctx.fresh.clear_caches_for_verif();
+            let res = {
+                let board = &mut ctx.board;
+                let mg = &mut ctx.fresh;
+                catch_unwind(AssertUnwindSafe(|| pool.install(|| alpha_beta_search(sc, board, mg))))
+            };
+            let after = crate::scen::full_snapshot(&ctx.board);
+            let mut s = match &res {
+                Ok(Ok(m)) => format!("searchx Ok {} {}", sc.last_score().unwrap(), mv_text(m)),
+                Ok(Err(e)) => format!("searchx Err {:?}", e),
+                Err(_) => "searchx PANIC".to_string(),
+            };
+            if before != after {
+                s.push_str(" BOARD-CHANGED");
+            }
+            if depth >= 1 {
+                fn plain_mm(b: &mut Board, g: &mut MoveGenerator, d: u8, maximizing: bool) -> i16 {
+                    let turn = b.turn();
+                    if d == 0 {
+                        return chess::evaluate::score(b, g, turn, 0);
+                    }
+                    let ms = g.generate_moves(b, turn);
+                    if ms.is_empty() {
+                        return chess::evaluate::score(b, g, turn, d);
+                    }
+                    let mut v = if maximizing { i16::MIN } else { i16::MAX };
+                    for m in ms.iter() {
+                        m.apply(b).unwrap();
+                        b.toggle_turn();
+                        let x = plain_mm(b, g, d - 1, !maximizing);
+                        m.undo(b).unwrap();
+                        b.toggle_turn();
+                        v = if maximizing { v.max(x) } else { v.min(x) };
+                    }
+                    v
+                }
+                let mut b = ctx.board.clone();
+                let mut g = MoveGenerator::with_cache_capacity(1 << 20);
+                let maximizing = b.turn() == Color::White;
+                let turn = b.turn();
+                let roots = g.generate_moves(&mut b, turn);
+                let mut vals: Vec<(String, i16)> = vec![];
+                for m in roots.iter() {
+                    m.apply(&mut b).unwrap();
+                    b.toggle_turn();
+                    let x = plain_mm(&mut b, &mut g, depth - 1, !maximizing);
+                    m.undo(&mut b).unwrap();
+                    b.toggle_turn();
+                    vals.push((mv_text(m), x));
+                }
+                let pos = crate::util::Pos::of_board(&ctx.board).line();
+                if vals.is_empty() {
+                    if !matches!(res, Ok(Err(_))) {
+                        s.push_str(&format!("\n! C08 search answered [{}] in [{}] which has no legal move", s, pos));
+                    }
+                } else {
+                    let best = if maximizing { vals.iter().map(|x| x.1).max().unwrap() } else { vals.iter().map(|x| x.1).min().unwrap() };
+                    match &res {
+                        Ok(Ok(m)) => {
+                            let sc_v = sc.last_score().unwrap();
+                            let mv = mv_text(m);
+                            let own = vals.iter().find(|x| x.0 == mv).map(|x| x.1);
+                            if sc_v != best || own != Some(best) {
+                                s.push_str(&format!(
+                                    "\n! C08 depth-{} search in [{}] reported {} with move {} (whose own minimax value is {:?}) but the exact minimax value is {}",
+                                    depth, pos, sc_v, mv, own, best
+                                ));
+                            }
+                        }
+                        _ => s.push_str(&format!("\n! C08 depth-{} search in [{}] answered without a move although {} legal moves exist", depth, pos, vals.len())),
+                    }
+                }
+            }
+            s
+        }
         "sched" => {
             // sched <threads> <seed> <mode>: alpha_beta_search in a rayon pool of the given size with the
             // cfg(chess_verif) hook installed: every shared-cache write is observed (a key that ever
